@@ -13,7 +13,7 @@ from harness.props import c11 as C11
 
 RULE = ("elements, substances (formula string or dict of elements) and materials (1..5 substances, dict or '<..>' "
         "string, every norm_type) with a mass density or a number density (sometimes both) and optionally a volume, "
-        "log-uniform positive values, a quarter of the composites modified after construction with add() of a present component, each given in a randomly chosen compatible unit and a second time in another "
+        "log-uniform positive values, a quarter of the composites modified after construction with add() of a present or a new component, each given in a randomly chosen compatible unit and a second time in another "
         "unit; corpus first. non-trivial = at least two components and a volume or a non-standard unit; distinct = "
         "canonical JSON of the case")
 ASSUMPTIONS = [
@@ -103,6 +103,8 @@ def gen_case(rng, nat, allsym):
         # the object is modified after construction: add() of an already present (or, for
         # substances, sometimes a new) component; _norm runs again
         case["then_add"] = [rng.randrange(8), rng.choice([1, 2, 3, 0.5, 0.25, 10])]
+        if rng.random() < 0.4:      # ... or of a new one
+            case["then_add"].append("Xe" if case["kind"] == "substance" else "XeF4")
     if rng.random() < 0.03:
         # a volume without any density: outside the property (the constructor raises: None * Quantity);
         # only impl vs model is compared
@@ -138,7 +140,8 @@ def build(case, alt=False):
         obj = Material(expr, natural=case["natural"], norm_type=getattr(Norm, case["mode"]), **kw)
     if case.get("then_add"):
         keys = list(obj.components.keys())
-        obj.add(keys[case["then_add"][0] % len(keys)], case["then_add"][1])
+        ta = case["then_add"]
+        obj.add(ta[2] if len(ta) > 2 and ta[2] not in keys else keys[ta[0] % len(keys)], ta[1])
     return obj
 
 
@@ -214,11 +217,16 @@ def request(case, imp):
     hist = None
     if case.get("then_add"):
         # history of component lists seen by _norm: the constructor's, then the modified object
-        idx = case["then_add"][0] % len(ps)
-        orig = [p - (case["then_add"][1] if k == idx else 0) for k, p in enumerate(ps)]
+        ta = case["then_add"]
+        names = [c[0] for c in case["comps"]] if case.get("comps") and (case["kind"] == "material" or case.get("via") == "dict") else None
+        if len(ta) > 2 and (names is None or ta[2] not in names) and len(ps) >= 2 and not (names is None and ta[2] in (case.get("formula") or "")):
+            orig, ms0 = ps[:-1], ms[:-1]          # the new component is the last one
+        else:
+            idx = ta[0] % len(ps)
+            orig, ms0 = [p - (ta[1] if k == idx else 0) for k, p in enumerate(ps)], ms
         if min(orig) <= 0:
             return None
-        comps0 = [[C11.frac(p), C11.frac(m)] for p, m in zip(orig, ms)]
+        comps0 = [[C11.frac(p), C11.frac(m)] for p, m in zip(orig, ms0)]
         hist = ([comps0[:k + 1] for k in range(len(comps0))] if via == "dict" else []) + [comps0]
     req = {"k": "matter", "mode": mode, "comps": [[C11.frac(p), C11.frac(m)] for p, m in zip(ps, ms)],
             "da": C11.frac(dalton()), "rho": qpair("rho", case.get("rho")), "n": qpair("n", case.get("n")),
